@@ -139,24 +139,29 @@ deriving DecidableEq, Repr, Inhabited
 /-- operations on the retry collector, tagged with the originating stream -/
 abbrev Ops := List (Nat × COp)
 
-def completes (id : Nat) (ts : List Trace) : Ops := ts.map (fun t => (id, COp.complete t))
+def completes (ts : List Trace) : List COp := ts.map COp.complete
 
-/-- `closeStreamLocked` -/
-def closeStream (c : L2) (id : Nat) (st : Stream) (isReq : Bool) (err : Err) : L2 × Ops :=
+def tag (id : Nat) (ops : List COp) : Ops := ops.map (fun o => (id, o))
+
+/-- `closeStreamLocked`, seen from the stream: the new table entry (`none` = deleted) and the
+collector operations -/
+def closeLocal (st : Stream) (isReq : Bool) (err : Err) : Option Stream × List COp :=
   let r := st.close isReq err
-  let tbl := if !isReq || err != .none then tDel id c.streams else tSet id r.1 c.streams
-  ({ c with streams := tbl }, completes id r.2)
+  (if !isReq || err != .none then none else some r.1, completes r.2)
 
-/-- `setMaxStreamIDLocked` -/
-def setMax (c : L2) (last : Nat) (err : Err) : L2 × Ops :=
-  let gone := c.streams.filter (fun p => p.1 > last)
-  ({ c with maxId := last, streams := c.streams.filter (fun p => !(p.1 > last)) },
-   gone.flatMap (fun p => completes p.1 (p.2.abort err).2))
+def frameSid : Frame → Option Nat
+  | .headers id _ _ => some id
+  | .data id _ _ => some id
+  | .rst id _ => some id
+  | _ => none
 
-/-- `handleFrame` -/
-def handleFrame (c : L2) (isReq : Bool) : Frame → L2 × Ops
-  | .headers id fields es =>
-    match tGet id c.streams with
+/-- What a HEADERS / DATA / RST_STREAM frame for stream `id` does to that stream's table
+entry `cur` (`none` = no such stream): the branches of `handleFrame` with `getStreamLocked`,
+`newStreamLocked`, `receiveResponseLocked`, `closeStreamLocked`.  Nothing but the entry of
+`id` (and `maxStreamID`, read only) is involved. -/
+def streamStep (maxId : Nat) (isReq : Bool) (id : Nat) (cur : Option Stream) : Frame → Option Stream × List COp
+  | .headers _ fields es =>
+    match cur with
     | some st =>
       -- existing stream
       let r : Stream × List Trace :=
@@ -166,25 +171,23 @@ def handleFrame (c : L2) (isReq : Bool) : Frame → L2 × Ops
         else if st.builder.trace.resp.isSome then
           ({ st with builder := { st.builder with trace := { st.builder.trace with respTrailers := some (regular fields) } } }, [])
         else (st, [])
-      let c1 := { c with streams := tSet id r.1 c.streams }
       if es then
-        let r2 := closeStream c1 id r.1 isReq .none
-        (r2.1, completes id r.2 ++ r2.2)
-      else (c1, completes id r.2)
+        let r2 := closeLocal r.1 isReq .none
+        (r2.1, completes r.2 ++ r2.2)
+      else (some r.1, completes r.2)
     | none =>
-      if !isReq then (c, [])
-      else if c.maxId != 0 && id > c.maxId then (c, [])
+      if !isReq then (none, [])
+      else if maxId != 0 && id > maxId then (none, [])   -- stream ID too high; ignore
       else
         let st := newStream fields
-        let c1 := { c with streams := tSet id st c.streams }
-        let o1 : Ops := [(id, COp.newAttempt st.builder.trace.name)]
+        let o1 : List COp := [COp.newAttempt st.builder.trace.name]
         if es then
-          let r2 := closeStream c1 id st isReq .none
+          let r2 := closeLocal st isReq .none
           (r2.1, o1 ++ r2.2)
-        else (c1, o1)
-  | .data id payload es =>
-    match tGet id c.streams with
-    | none => (c, [])
+        else (some st, o1)
+  | .data _ payload es =>
+    match cur with
+    | none => (none, [])
     | some st =>
       let r : Stream × List Trace :=
         if isReq then
@@ -193,17 +196,37 @@ def handleFrame (c : L2) (isReq : Bool) : Frame → L2 × Ops
         else
           let d := dataTrace st.respCfg st.respDT payload
           { st with respDT := d.1 }.addEvs (d.2.map respEv)
-      let c1 := { c with streams := tSet id r.1 c.streams }
       if es then
-        let r2 := closeStream c1 id r.1 isReq .none
-        (r2.1, completes id r.2 ++ r2.2)
-      else (c1, completes id r.2)
-  | .rst id code =>
-    match tGet id c.streams with
-    | none => (c, [])
-    | some st => closeStream c id st isReq (.stream id code)
+        let r2 := closeLocal r.1 isReq .none
+        (r2.1, completes r.2 ++ r2.2)
+      else (some r.1, completes r.2)
+  | .rst _ code =>
+    match cur with
+    | none => (none, [])
+    | some st => closeLocal st isReq (.stream id code)
+  | _ => (cur, [])
+
+def tPut (id : Nat) : Option Stream → Tbl → Tbl
+  | none, t => tDel id t
+  | some st, t => tSet id st t
+
+/-- `setMaxStreamIDLocked` -/
+def setMax (c : L2) (last : Nat) (err : Err) : L2 × Ops :=
+  let gone := c.streams.filter (fun p => p.1 > last)
+  ({ c with maxId := last, streams := c.streams.filter (fun p => !(p.1 > last)) },
+   gone.flatMap (fun p => tag p.1 (completes (p.2.abort err).2)))
+
+/-- `handleFrame` -/
+def handleFrame (c : L2) (isReq : Bool) (f : Frame) : L2 × Ops :=
+  match f with
   | .goaway last code => setMax c last (.conn code)
   | .other => (c, [])
+  | f =>
+    match frameSid f with
+    | some id =>
+      let r := streamStep c.maxId isReq id (tGet id c.streams) f
+      ({ c with streams := tPut id r.1 c.streams }, tag id r.2)
+    | none => (c, [])
 
 def handleFrames (c : L2) (isReq : Bool) : List Frame → L2 × Ops
   | [] => (c, [])
@@ -215,7 +238,7 @@ def handleFrames (c : L2) (isReq : Bool) : List Frame → L2 × Ops
 /-- `cancelAll` (the stream part; `collector.cancel()` follows) -/
 def cancelAll (c : L2) (err : Err) : L2 × Ops :=
   ({ c with streams := [] },
-   c.streams.flatMap (fun p => completes p.1 (if c.isServer then p.2.abort err else p.2.cancelClient err).2)
+   c.streams.flatMap (fun p => tag p.1 (completes (if c.isServer then p.2.abort err else p.2.cancelClient err).2))
      ++ [(0, COp.cancel)])
 
 /-! ### what is observed of a delivered trace (canonical form shared with the harness) -/
